@@ -19,7 +19,7 @@ for patch in "$VERIF"/mutants/$id-*.patch "$VERIF"/seeded/*/patch.diff; do
   dir=$(mktemp -d /root/scratch/mut-XXXXXX)
   rmdir "$dir"
   git -C /repo worktree add -q --detach "$dir" HEAD || { echo "cannot create worktree"; exit 2; }
-  if ! git -C "$dir" apply "$patch" 2>/dev/null; then
+  if ! git -C "$dir" apply "$patch" 2>/dev/null && ! git -C "$dir" apply -3 "$patch" >/dev/null 2>&1; then
     echo "SKIP  $name (patch does not apply)"; git -C /repo worktree remove --force "$dir"; continue
   fi
   if [ "$verify" = --verify ]; then
